@@ -444,3 +444,83 @@ def check_C18(ctx):
                   "CacheCoherent (and two Neg configs showing that a stale buffer for an empty list / a non-invalidating mutator violate "
                   "them); every sequence is executed on the real API with each result compared bit-for-bit with a fresh computation; "
                   "non-trivial = distinct operation sequences")
+
+
+# ----------------------------------------------------------------------------
+READER_INV = ["ScheduleIndependent", "ErrorProvenance", "Conservation", "EmitCase"]
+
+
+def reader_run(ctx, fileset, n, faults, cases, keep=True, unit=True, chunk=4, intr=1, expect_violation=False, inv=None):
+    cfg = dict(spec="Spec", invariants=inv or READER_INV, properties=[] if expect_violation else ["Terminates", "FaultSurfaces"],
+               view="View",
+               constants=dict(FileSet='"%s"' % fileset, FileN=str(n), MaxChunk=str(chunk), MaxIntr=str(intr), FaultSet='"%s"' % faults,
+                              KeepShortChunks="TRUE" if keep else "FALSE", UnitAware="TRUE" if unit else "FALSE",
+                              Emit="TRUE" if cases and not expect_violation else "FALSE"))
+    name = "MC_Reader_%s%d_%s%s%s" % (fileset, n, faults, "" if keep else "_shortloses", "" if unit else "_bytesplit")
+    return tlc(ctx, "Reader", name, cfg, workers=14, timeout=3000, cases_file=None if expect_violation else cases,
+               expect_violation=expect_violation, count=not expect_violation)
+
+
+def check_C08(ctx):
+    thorough = ctx.tier == "thorough"
+    sany(ctx, "Reader")
+    cases = os.path.join(ctx.work, "reader.ndjson")
+    reader_run(ctx, "hdr", 3 if thorough else 2, "none", cases, chunk=5 if thorough else 4, intr=2 if thorough else 1)
+    reader_run(ctx, "tiny", 5 if thorough else 4, "none", cases, chunk=4, intr=1)
+    # the pinned reader (a first chunk of 1-2 bytes is consumed while sniffing the BOM) violates the model's invariant
+    reader_run(ctx, "tiny", 3, "none", None, keep=False, expect_violation=True, inv=["ScheduleIndependent"])
+    summ = harness(ctx, ["reader", "replay", "--prop", "C08"], cases_file=cases, name="reader-replay", timeout=3600)
+    report_mismatches(ctx, summ, "decoded lines depend on how the bytes are delivered / differ from the Reader specification")
+    summ = harness(ctx, ["reader", "relations", "--prop", "C08", "--tier", ctx.tier], name="reader-rel", timeout=7000)
+    report_mismatches(ctx, summ, "decoding a real file depends on the delivery schedule")
+    ctx.assumptions += ["the BufRead contract (fill_buf returns a non-empty slice unless at end of input)",
+                        "text decoding of each line is std's lossy conversion (C10)"]
+    return finish(ctx, "model_checking",
+                  "Reader.tla models the BufRead as an environment (chunk sizes, Interrupted, failure) and the decoder's BOM sniffing and "
+                  "line splitting as actions; TLC checks on every short file x every schedule that the lines are a function of the bytes only "
+                  "(and terminates); each file is replayed with the model's witness schedule and seeded others through a scheduled BufRead and "
+                  "a recording DecodeBeatmap implementor; the same relation is evaluated on bundled and random files in four encodings under "
+                  "fixed chunk sizes, random schedules with Interrupted results, BufReader capacities 1..16, from_str and from_path; "
+                  "non-trivial = distinct (file, fault) cases with more than one line / distinct (file, encoding) pairs")
+
+
+def check_C09(ctx):
+    thorough = ctx.tier == "thorough"
+    sany(ctx, "Reader")
+    cases = os.path.join(ctx.work, "reader.ndjson")
+    reader_run(ctx, "hdr", 2 if thorough else 1, "all", cases, chunk=3, intr=1)
+    reader_run(ctx, "tiny", 4 if thorough else 3, "all", cases, chunk=3, intr=1)
+    # pinned LE handling: an UnexpectedEof that no reader failure caused
+    reader_run(ctx, "hdr", 1, "none", None, unit=False, expect_violation=True, inv=["ErrorProvenance"])
+    summ = harness(ctx, ["reader", "replay", "--prop", "C09"], cases_file=cases, name="reader-replay", timeout=3600)
+    report_mismatches(ctx, summ, "an I/O fault is not surfaced as the Reader specification requires")
+    summ = harness(ctx, ["reader", "relations", "--prop", "C09", "--tier", ctx.tier], name="reader-rel", timeout=7000)
+    report_mismatches(ctx, summ, "an injected read/write fault is swallowed, altered or followed by further I/O")
+    ctx.assumptions += ["faults are injected at the BufRead / Write traits, where the crate's responsibility starts"]
+    return finish(ctx, "fault_enumeration",
+                  "TLC enumerates every fault offset x {Other, UnexpectedEof} x every schedule on short files and checks that the result is "
+                  "that error iff the fault is reached, that Interrupted never surfaces and that every behaviour ends; the behaviours are "
+                  "replayed through a faulting BufRead; on bundled and random files every byte offset (sampled for large files) x 5 error kinds "
+                  "is injected on read, and every output offset x {error kinds, zero-length write}, short writes, Interrupted writes and a flush "
+                  "failure on write; non-trivial = distinct (file, fault) / (file, encoding) cases")
+
+
+def check_C10(ctx):
+    thorough = ctx.tier == "thorough"
+    sany(ctx, "Reader")
+    cases = os.path.join(ctx.work, "reader.ndjson")
+    reader_run(ctx, "hdr", 4 if thorough else 3, "none", cases, chunk=2, intr=0)
+    # the pinned reader splits UTF-16 text after every 0x0A byte: a violation of the model's invariant
+    reader_run(ctx, "hdr", 2, "none", None, unit=False, expect_violation=True, inv=["ScheduleIndependent"])
+    summ = harness(ctx, ["reader", "replay", "--prop", "C10"], cases_file=cases, name="reader-replay", timeout=3600)
+    report_mismatches(ctx, summ, "line splitting / lossy decoding differs from the Reader specification")
+    summ = harness(ctx, ["reader", "relations", "--prop", "C10", "--tier", ctx.tier], name="reader-rel", timeout=7000)
+    report_mismatches(ctx, summ, "the same text decodes differently in another encoding / lossy replacement differs from std")
+    ctx.assumptions += ["reference for replacement characters: String::from_utf8_lossy / from_utf16_lossy applied per line",
+                        "an odd trailing byte of a UTF-16 stream is dropped (the statement does not determine it; the model follows the code)"]
+    return finish(ctx, "model_checking",
+                  "Reader.tla's declarative rule splits UTF-16 payloads on the code unit U+000A only; TLC checks the operational reader "
+                  "against it for every payload over a byte alphabet containing 0x0A-bearing units, surrogate halves and invalid UTF-8; each "
+                  "file is replayed and the delivered text compared with std's lossy conversion of the model's raw lines; bundled and random "
+                  "texts (with hostile characters injected) are decoded in four encodings and must agree, invalid UTF-8 / unpaired surrogates "
+                  "must equal the per-line lossy reference, and (thorough) every Unicode scalar value is swept as metadata content")
